@@ -63,7 +63,7 @@ CHECKS = {
             'non-breaking, return Response and 9 non-Response values) is placed at every position of fixed stacks under 5 '
             'error handlers (complete product); Hypothesis varies stack shape, Accept, method and builds histories. The WSGI '
             'call must return one well-formed response with the predicted status, exceptions escape only under the re-raising '
-            'handler (and are the original object), and a probe request is answered identically afterwards.',
+            'handler (and are the original object), and a probe request is answered identically afterwards. The exception catalogue includes messages outside well-formed Unicode (unpaired surrogates) and huge multi-byte messages in every byte alignment.',
             'status oracle is hand-written from the statement; BaseExceptions and streaming-body failures are not generated',
             'DESIGN.md §4 C08'),
     'C09': ('exploration',
@@ -122,7 +122,7 @@ CHECKS = {
             'answer must be 200 with exactly the bytes of the file the lexical resolution names inside the first root that has it, '
             'or 403/404; escapes are never 200 and no secret byte ever appears; every regular file is served at its clean path. '
             'For each served file an OS error (4 errnos) is injected at every filesystem call made before the response is '
-            'returned: the answer must be 403/404 (or the next search path\'s file), never 500. If-Modified-Since at/after/before.',
+            'returned: the answer must be 403/404 (or the next search path\'s file), never 500. If-Modified-Since at/after/before. The tree contains empty files with and without a guessable type.',
             'symlink-free tree; faults are injected by patching the names clastic.static looks up (no hook); reads during body streaming are out of scope',
             'DESIGN.md §4 C14'),
     'C13': ('exploration',
@@ -141,7 +141,7 @@ CHECKS = {
             'routes, embedded applications, middlewares incl. a signed-cookie middleware with a known key, meta mounted at '
             'generated prefixes and up to two embedding levels deep) are asked for the HTML and the JSON view: both must be 200, '
             'no secret token and not the signing key may occur anywhere (also after unescaping / decoding), secret names carry the '
-            'redaction marker and plain resources stay visible.',
+            'redaction marker and plain resources stay visible. Resource values that are callable objects are also routed as endpoints (one object in two roles; complete secret-name x mount x depth family).',
             'only lower-case "secret" in the name is claimed; with a failing repr only 200 + no-leak are asserted',
             'DESIGN.md §4 C18'),
     'C10': ('exploration',
